@@ -29,6 +29,9 @@ func runC02(c *Ctx) {
 	c.Rule("C02-R6", "optional pointers dereferenced only under a guard", 50)
 	c.Rule("C02-R9", "regexp.MustCompile only on constants, quoted text or validated config", 5)
 	c.Rule("C02-R10", "line accounting: rule line ranges are ordered, the reader consumes whole lines", 12)
+	defer c01EveryFileIsRead(c, "C02-R2")
+	defer c02ErrorValuesAreComparable(c, "C02-R3")
+	defer c02CommentLinesAreFileLines(c, "C02-R10")
 
 	c02Typestate(c)
 	c02Gate(c, "C02-R2")
@@ -1575,4 +1578,171 @@ func c02KeyValueSameOrigin(c *Ctx, R string) {
 		}
 	}
 	c.Ok(R, "YamlKeyValue literals rebuilt from parts enumerated", token.NoPos, itoa(n))
+}
+
+// c01EveryFileIsRead: every path the glob finder keeps after the configured
+// include/exclude filter is handed to readRules. In the loop of GlobFinder.Find
+// that opens the files, the only way past a file without reading it is the
+// path filter (`!f.filter.IsPathAllowed(...)`); everything else in front of
+// readRules either reads on or returns an error. A file that is skipped for
+// any other reason (a size limit, a "binary file" sniff, a cache of unchanged
+// files) yields no entry and no Fatal problem: a file Prometheus refuses
+// passes, and its rules are never linted.
+func c01EveryFileIsRead(c *Ctx, R string) {
+	fi := c.MustFunc(R, "internal/discovery.GlobFinder.Find")
+	if fi == nil {
+		return
+	}
+	info := fi.Pkg.TypesInfo
+	pm := parentMap(fi.Decl.Body)
+	var loop *ast.RangeStmt
+	ast.Inspect(fi.Decl.Body, func(nd ast.Node) bool {
+		rs, ok := nd.(*ast.RangeStmt)
+		if !ok {
+			return true
+		}
+		has := false
+		ast.Inspect(rs.Body, func(m ast.Node) bool {
+			if call, isCall := m.(*ast.CallExpr); isCall && isCallTo(info, call, "internal/discovery.readRules") {
+				has = true
+			}
+			return true
+		})
+		if has {
+			loop = rs
+		}
+		return true
+	})
+	if loop == nil {
+		c.Bad(R, "GlobFinder.Find:every kept path is read", fi.Decl.Pos(), "no loop calls readRules")
+		return
+	}
+	var call *ast.CallExpr
+	ast.Inspect(loop.Body, func(m ast.Node) bool {
+		if cl, isCall := m.(*ast.CallExpr); isCall && call == nil && isCallTo(info, cl, "internal/discovery.readRules") {
+			call = cl
+		}
+		return true
+	})
+	bad := ""
+	if g := lexicalGuards(pm, call, loop.Body); len(g) > 0 {
+		bad = "readRules is guarded by `" + roleStr(info, g[0].E) + "`"
+	}
+	inspectNoLit(loop.Body, func(m ast.Node) bool {
+		b, ok := m.(*ast.BranchStmt)
+		if !ok || b.Pos() > call.Pos() || (b.Tok != token.CONTINUE && b.Tok != token.BREAK && b.Tok != token.GOTO) {
+			return true
+		}
+		okFilter := false
+		for _, g := range lexicalGuards(pm, b, loop.Body) {
+			if gc, isCall := ast.Unparen(g.E).(*ast.CallExpr); isCall && !g.Truth {
+				if fn := Callee(info, gc); fn != nil && fn.Name() == "IsPathAllowed" {
+					okFilter = true
+				}
+			}
+		}
+		if !okFilter {
+			bad = "`" + b.Tok.String() + "` at " + c.P.Pos(b.Pos()) + " passes a file by"
+		}
+		return true
+	})
+	c.Check(bad == "", R, "GlobFinder.Find:every kept path is read", loop.Pos(), "only the path filter skips a file",
+		bad+": the file yields no entries and no parse error, so a file Prometheus refuses to load is accepted silently and its rules are never checked")
+}
+
+// c02ErrorValuesAreComparable: parsed rules are compared with == / != on their
+// error fields (Rule.IsSame, Summary de-duplication). Every error type of the
+// module that is used by value is therefore comparable: comparing two interface
+// values whose dynamic type holds a slice, map or function panics at run time.
+func c02ErrorValuesAreComparable(c *Ctx, R string) {
+	n := 0
+	check := func(info *types.Info, v ast.Expr, pos token.Pos, where string) {
+		t := info.TypeOf(v)
+		if t == nil {
+			return
+		}
+		if _, isIface := t.Underlying().(*types.Interface); isIface {
+			return // an error produced elsewhere (fmt.Errorf, errors.New, a decoder): not decided here
+		}
+		n++
+		c.Check(types.Comparable(t), R, where+": error value of type "+typeQName(t)+" is comparable", pos, "comparable",
+			"a value of type "+t.String()+" is stored in ParseError.Err, and it holds a slice, map or function: parser.Rule.IsSame and the report de-duplication compare ParseError values with ==, which panics (`comparing uncomparable type`) as soon as two rules with this error meet (two rules written on one line in flow style, say)")
+	}
+	for _, fi := range c.P.AllFuncs() {
+		if fi.Decl.Body == nil || c.P.IsTestFile(fi.Decl.Pos()) {
+			continue
+		}
+		info := fi.Pkg.TypesInfo
+		seq := 0
+		ast.Inspect(fi.Decl.Body, func(nd ast.Node) bool {
+			switch x := nd.(type) {
+			case *ast.CompositeLit:
+				if typeQName(info.TypeOf(x)) == "internal/parser.ParseError" {
+					if v := litField(x, "Err"); v != nil {
+						seq++
+						check(info, v, v.Pos(), shortFuncName(fi.Name)+"#"+itoa(seq))
+					}
+				}
+			case *ast.AssignStmt:
+				for i, l := range x.Lhs {
+					if fieldSel(info, l, "internal/parser.ParseError", "Err") && i < len(x.Rhs) {
+						seq++
+						check(info, x.Rhs[i], x.Pos(), shortFuncName(fi.Name)+"#"+itoa(seq))
+					}
+				}
+			}
+			return true
+		})
+	}
+	// (the count of concrete-typed stores may be zero today: all of them go through fmt.Errorf / errors.New)
+	c.Ok(R, "stores to ParseError.Err with a concrete error type enumerated", token.NoPos, itoa(n))
+}
+
+// c02CommentLinesAreFileLines: comments.Parse numbers the lines of a comment
+// block by counting "\n" in the text it is given, the same way the content
+// reader counts the lines of the file. The text is split as it is: a
+// normalisation in front of the split (CR to LF, trimming, collapsing blank
+// lines) changes the count, and a comment error is then reported on a line
+// that is not where the comment is — possibly beyond the end of the file.
+func c02CommentLinesAreFileLines(c *Ctx, R string) {
+	fi := c.MustFunc(R, "internal/comments.Parse")
+	if fi == nil {
+		return
+	}
+	info := fi.Pkg.TypesInfo
+	sig := fi.Obj.Type().(*types.Signature)
+	var textP types.Object
+	for i := 0; i < sig.Params().Len(); i++ {
+		if sig.Params().At(i).Type().String() == "string" {
+			textP = sig.Params().At(i)
+		}
+	}
+	n, bad := 0, ""
+	ast.Inspect(fi.Decl.Body, func(nd ast.Node) bool {
+		call, ok := nd.(*ast.CallExpr)
+		if !ok {
+			return true
+		}
+		fn := Callee(info, call)
+		if fn == nil || fn.Pkg() == nil || fn.Pkg().Path() != "strings" {
+			return true
+		}
+		switch fn.Name() {
+		case "Split", "SplitSeq", "SplitAfter", "SplitN", "Lines", "Count", "Cut":
+			n++
+			if len(call.Args) >= 1 && objOf(info, call.Args[0]) != textP {
+				bad = "`" + exprStr(call) + "` does not split the text it was given"
+			}
+			if len(call.Args) >= 2 {
+				if sep, isC := constString(info, call.Args[1]); !isC || sep != "\n" {
+					bad = "`" + exprStr(call) + "` does not split on \"\\n\""
+				}
+			}
+		case "Fields", "FieldsFunc", "NewReplacer", "ReplaceAll", "Replace", "TrimSpace", "Trim":
+			bad = "`" + exprStr(call) + "` rewrites the text before its lines are counted"
+		}
+		return true
+	})
+	c.Check(n >= 1 && bad == "", R, "comments.Parse:lines of a comment block are the file's lines", fi.Decl.Pos(), "strings.Split(text, \"\\n\")",
+		bad+": the line a comment problem is reported on no longer matches the file (a bare CR inside a comment line shifts every following comment; the report can land beyond the last line)")
 }
